@@ -471,6 +471,9 @@ def run_check(prop, tier, seed, obligations, ctx, level, functions, assumptions,
             o.prop, r.replay, o.name, ",".join(p for p, _ in plevel[:3]), suffix))
     for s in static_results or []:
         # static supporting facts: dict(name, ok, detail, replay_doc)
+        if s["ok"] is None:
+            infra.append("%s: %s" % (s["name"], s["detail"][:400]))
+            continue
         if not s["ok"]:
             rdir = os.path.join(VERIF, "evidence", "replay"); os.makedirs(rdir, exist_ok=True)
             path = os.path.join(rdir, s["name"] + ".json")
